@@ -295,7 +295,7 @@ def main(argv=None):
         for name, o in r.controls.items():
             controls[name] = o
     known = load_known()
-    open_findings = [f for f in known.get("findings", []) if f.get("status") == "open" and f.get("property") == prop]
+    open_findings = [f for f in known.get("findings", []) if f.get("status") == "open" and (f.get("property") == prop or prop in f.get("also_properties", []))]
 
     replay_dir = os.path.join(VERIF, "replays", prop)
     os.makedirs(replay_dir, exist_ok=True)
